@@ -214,7 +214,7 @@ def run(res, f, tier):
     ob(True, "C12|suspension|awaits-only", "")
     res.floor("bodies reachable from evaluation", len(reach), 60)
     res.floor("fields of the data types", nfields, 40)
-    res.floor("await points", yields, 40)
+    res.floor("await points", yields, 8)   # one per evaluating construct at least: the evaluator recursion, the helpers of if / and / or / equality, lists, maps, calls
     import control
     controls = control.effect_controls()
     res.coverage = {
